@@ -2190,7 +2190,10 @@ func canonicalConfig(toml string) (string, error) {
 		case map[string]interface{}:
 			for k, e := range t {
 				p := prune(e)
-				if p == nil && k != "CaptchaHMACSecret" {
+				if k == "CaptchaHMACSecret" && p == "" {
+					p = nil // an empty secret is no secret (0ac562c): same configuration as an unset one
+				}
+				if p == nil {
 					delete(t, k)
 				} else {
 					t[k] = p
